@@ -767,8 +767,10 @@ class SourceHandler:
                 return
             self._params.positive_ack_params.ack_timer.reset()
             self._params.positive_ack_params.ack_counter += 1
+            # The EOF PDU carries the progress as its file size (which is smaller than the file
+            # size for an EOF (cancel) PDU), so the checksum must cover the same prefix.
             self._prepare_eof_pdu(
-                self._checksum_calculation(self._params.fp.file_size),
+                self._checksum_calculation(self._params.fp.progress),
             )
 
     def _handle_wait_for_finish(self, packet_holder: PduHolder) -> None:
